@@ -957,6 +957,9 @@ func genCurve(field, scal, root *pkgSrc, out string) {
 	// SqrtRatio refers to FieldChains.expPMin3Div4, so it lives in a second namespace block of its own file
 	genCells([]cellJob{
 		{field, "field", "Element.SqrtRatio", "sqrtRatio", nil, ""},
+		// the receiver may be either operand (aliasing patterns of the receiver)
+		{field, "field", "Element.SqrtRatio", "sqrtRatio_eu", [][]string{{"e", "u"}, {"v"}}, ""},
+		{field, "field", "Element.SqrtRatio", "sqrtRatio_ev", [][]string{{"e", "v"}, {"u"}}, ""},
 	}, "FieldChains", "import Secp.Gen.FieldChains", out+"/SqrtRatio.lean")
 	genCells([]cellJob{
 		{scal, "scalar", "scalar.Invert", "invert", nil, ""},
